@@ -91,29 +91,39 @@ static void c09_mutant(struct c09ctx *c, const char *desc_fmt, ...)
     int rc = liberasurecode_get_fragment_metadata((char *)m, &md);
     if (acc && rc != 0) vh_violation("valid-header-rejected", "%s: metadata query returned %d for a header the reference accepts", name, rc);
     if (!acc && rc != EBADHDR) vh_violation("invalid-header-accepted", "%s: metadata query returned %d, expected the bad-header error", name, rc);
-    /* decode: mutant + all the other fragments of the stripe */
-    char **arr = (char **)(s->gptr.p + s->gptr.len) - n; int nf = 0;
-    arr[nf++] = (char *)m;
-    for (int i = 0; i < n; i++) if (i != c->fi) arr[nf++] = (char *)frag_at(s, GP_END, i);
-    int idx_same = !memcmp(h, c->base, 4) ;
-    { char opn[96]; snprintf(opn, sizeof opn, "liberasurecode_decode:%s", be_name(s->sh.be)); vh_op(opn); }
-    char *out = NULL; uint64_t outlen = 0; vh_transitions(1);
-    rc = liberasurecode_decode(s->desc, arr, nf, s->flen, 0, &out, &outlen);
-    if (!(acc && host) && rc != EBADHDR) vh_violation("invalid-header-accepted", "%s: decode returned %d for a header that is %s, expected the bad-header error", name, rc, acc ? "not in host byte order" : "invalid");
-    if (acc && host && idx_same && rc == EBADHDR) vh_violation("valid-header-rejected", "%s: decode returned the bad-header error for an acceptable host-order header", name);
-    if (acc && host && idx_same && !differs && rc != 0) vh_violation("valid-header-rejected", "%s: decode of the pristine stripe returned %d", name, rc);
-    if (out && ledger_has(out)) liberasurecode_decode_cleanup(s->desc, out);
-    /* reconstruct: mutant + others except one, rebuild that one */
-    if (n >= 2) {
-        int d = (c->fi + 1) % n; nf = 0;
-        arr = (char **)(s->gptr.p + s->gptr.len) - n;
-        arr[nf++] = (char *)m;
+    /* decode, in four list layouts: the mutant first / last among the other fragments of the stripe; and as a SURPLUS entry after a
+     * complete pristine stripe, and after two copies of it (more than k+m entries). Whatever the position, a header that must be
+     * rejected makes decode fail with the bad-header error: validation precedes every use, also of fragments decode does not need. */
+    int idx_same = !memcmp(h, c->base, 4);
+    for (int lay = 0; lay < 4; lay++) {
+        int want = lay == 3 ? 2 * n + 1 : lay == 2 ? n + 1 : n;
+        if (want > 64) continue;
+        if (lay >= 2 && acc && host) continue;                   /* accepted surplus entries: nothing to demand */
+        char **arr = (char **)(s->gptr.p + s->gptr.len) - want; int nf = 0;
+        if (lay == 0) arr[nf++] = (char *)m;
+        for (int rep = 0; rep < (lay == 3 ? 2 : 1); rep++) for (int i = 0; i < n; i++) if (lay >= 2 || i != c->fi) arr[nf++] = (char *)frag_at(s, GP_END, i);
+        if (lay != 0) arr[nf++] = (char *)m;
+        { char opn[96]; snprintf(opn, sizeof opn, "liberasurecode_decode:%s", be_name(s->sh.be)); vh_op(opn); }
+        char *out = NULL; uint64_t outlen = 0; vh_transitions(1);
+        rc = liberasurecode_decode(s->desc, arr, nf, s->flen, 0, &out, &outlen);
+        static const char *ln[] = { "first in the list", "last in the list", "as a surplus entry after the complete stripe", "as entry 2(k+m)+1" };
+        if (!(acc && host) && rc != EBADHDR) vh_violation("invalid-header-accepted", "%s: decode returned %d for a header that is %s (placed %s), expected the bad-header error", name, rc, acc ? "not in host byte order" : "invalid", ln[lay]);
+        if (acc && host && idx_same && rc == EBADHDR) vh_violation("valid-header-rejected", "%s: decode returned the bad-header error for an acceptable host-order header", name);
+        if (acc && host && idx_same && !differs && rc != 0) vh_violation("valid-header-rejected", "%s: decode of the pristine stripe returned %d", name, rc);
+        if (out && ledger_has(out)) liberasurecode_decode_cleanup(s->desc, out);
+    }
+    /* reconstruct: mutant (first / last) + others except one, rebuild that one */
+    if (n >= 2) for (int lay = 0; lay < 2; lay++) {
+        int d = (c->fi + 1) % n, nf = 0;
+        char **arr = (char **)(s->gptr.p + s->gptr.len) - n;
+        if (lay == 0) arr[nf++] = (char *)m;
         for (int i = 0; i < n; i++) if (i != c->fi && i != d) arr[nf++] = (char *)frag_at(s, GP_END, i);
+        if (lay == 1) arr[nf++] = (char *)m;
         uint8_t *ob = s->gout.p + s->gout.len - s->flen;
         { char opn[96]; snprintf(opn, sizeof opn, "liberasurecode_reconstruct_fragment:%s", be_name(s->sh.be)); vh_op(opn); }
         vh_transitions(1);
         rc = liberasurecode_reconstruct_fragment(s->desc, arr, nf, s->flen, d, (char *)ob);
-        if (!(acc && host) && rc != EBADHDR) vh_violation("invalid-header-accepted", "%s: reconstruct returned %d for a header that is %s, expected the bad-header error", name, rc, acc ? "not in host byte order" : "invalid");
+        if (!(acc && host) && rc != EBADHDR) vh_violation("invalid-header-accepted", "%s: reconstruct returned %d for a header that is %s (placed %s), expected the bad-header error", name, rc, acc ? "not in host byte order" : "invalid", lay ? "last" : "first");
         if (acc && host && idx_same && rc == EBADHDR) vh_violation("valid-header-rejected", "%s: reconstruct returned the bad-header error for an acceptable host-order header", name);
     }
     (void)k;
